@@ -4,6 +4,7 @@
 package jsonv
 
 import (
+	"unicode/utf8"
 	"bytes"
 	"encoding/base64"
 	"encoding/hex"
@@ -315,6 +316,14 @@ func leaf(fd protoreflect.FieldDescriptor, v protoreflect.Value, enumCustom map[
 		tok = "e" + strconv.Itoa(int(n))
 	}
 	r["tok"], r["tokS"], r["tokMs"], r["tokDate"] = tok, tok, tok, tok
+	// what the length rules count: characters of a string, bytes of a bytes value
+	r["len"] = 0
+	switch fd.Kind() {
+	case protoreflect.StringKind:
+		r["len"] = utf8.RuneCountInString(v.String())
+	case protoreflect.BytesKind:
+		r["len"] = len(v.Bytes())
+	}
 	return r
 }
 
@@ -333,6 +342,7 @@ func wktLeaf(m protoreflect.Message) M {
 	}
 	tok := val.Message(m)
 	r["tok"], r["tokS"], r["tokMs"], r["tokDate"] = tok, tok, tok, tok
+	r["len"] = 0
 	if m.Descriptor().FullName() == "google.protobuf.Timestamp" {
 		sec := m.Get(m.Descriptor().Fields().ByName("seconds")).Int()
 		nanos := m.Get(m.Descriptor().Fields().ByName("nanos")).Int()
